@@ -105,6 +105,11 @@ Theorem C01_end_to_end : forall pre ops, typed_pre pre -> adm0 pre ops -> typed_
 Proof. exact end_to_end. Qed.
 Print Assumptions C01_end_to_end.
 
+(* [log_aec] in one pass (the form the harness evaluates): the number of occurrences of k among the decoded keys of the accepted events *)
+Theorem C01_log_aec_one_pass : forall ops x k, log_aec x ops k = count_key k (log_aec_keys x ops).
+Proof. exact log_aec_count. Qed.
+Print Assumptions C01_log_aec_one_pass.
+
 (* the hypotheses are decidable, and satisfiable by a history with all three record kinds, a rotation and an explicit write *)
 Theorem C01_hypotheses_decidable : forall pre ops,
   has_tyb FilePreamble pre = true -> admb (x_new pre) 0 ops = true -> typed_xb (xrun (x_new pre) ops) = true ->
